@@ -99,7 +99,7 @@ def replay(prop, path):
 
 
 # ---------------------------------------------------------------------------- board-level rules
-HARNESS_CODE = (r"src/(refm|sym|brd|stubs|util|c\d\d)\.rs", 70, "harness/reference code: constant trip counts (<= 64), loops end on their own")
+HARNESS_CODE = (r"^src/(refm|sym|brd|stubs|util|glue|zob|full|san|c\d\d)\.rs:", 70, "harness/reference code: constant trip counts (<= 64), loops end on their own")
 
 
 def board_rules(a=16, full_n=None):
@@ -109,7 +109,7 @@ def board_rules(a=16, full_n=None):
     return [
         HARNESS_CODE,
         (r"core/src/array/", 9, "array::map over <= 8 elements (raw board constructor hook)"),
-        (r"add_pawn_legals", 3 if full_n is None else full_n + 1, "single-origin mask: each pawn loop runs <= 1 time, the en-passant loop <= 2 (two attackers of a square)"),
+        (r"add_pawn_legals", 2 if full_n is None else full_n + 1, "single-origin mask: at most one own pawn is in the mask, so each of the three pawn loops (free pawns, pinned pawns, en-passant capturers) runs <= 1 time"),
         (r"add_knight_legals|add_slider_legals", one, "single-origin mask: <= 1 piece"),
         (r"add_king_legals", 9, "king has <= 8 neighbours"),
         (r"can_castle", 7, "king path (between + destination) has <= 6 squares"),
@@ -172,10 +172,14 @@ def gen_queries(prefix, kinds, cks, timeout, mem=None, a=16):
     """per-generator harnesses (reached through the hook verif_add_legals)"""
     qs = []
     for k in kinds:
-        for c in cks:
+        kcks = list(cks)
+        if k == "pawn" and 0 in kcks:
+            # the not-in-check pawn instance is the largest query: split into "no ep file" (3) and "ep file set" (4)
+            kcks = [c for c in kcks if c != 0] + [3, 4]
+        for c in kcks:
             if c == 2 and k != "king":
                 continue  # in double check the dispatcher calls the king generator only (c16_dispatch)
-            m = mem or (12 if k in ("king", "pawn") else 7)
+            m = mem or 3  # measured peak RSS <= 0.5 GB
             qs.append(Query("brd::%s_%s_c%d" % (prefix, k, c), stubbing=True, rules=board_rules(a), default_unwind=2, timeout=timeout, mem_gb=m))
     return qs
 
@@ -309,14 +313,16 @@ def plan_c01(res, tier, seed, only):
     res.assumptions.append(GEN_NOTE)
     base = [Query("c16::c16_dispatch", stubbing=True, timeout=cap, mem_gb=8),
             Query("brd::c01_double_check_ref", stubbing=True, rules=board_rules(), default_unwind=2, timeout=cap, mem_gb=6)]
-    sliders = ["knight", "bishop", "rook", "queen"]
+    qs = base + gen_queries("c01_gen", KINDS[:6], [0, 1, 2], cap) + gen_queries("c16_silent", KINDS[:6], [0, 1, 2], cap)
     if tier == "quick":
-        pick = sliders[seed % 4]
-        qs = base + gen_queries("c01_gen", ["king", "pawn", pick], [0, 1, 2], cap) + gen_queries("c16_silent", ["pawn", pick], [0, 1], cap)
-        res.notrun.append("c01_gen / c16_silent cubes of the kinds other than king, pawn, %s; the public-entry c01_origin cubes: thorough tier (or another VERIF_SEED)" % pick)
+        # public entry point (generate_moves_for itself) on three rotating cubes as a cross-check of the composition; all 21 in thorough
+        pub = [("king", 0), ("pawn", 0), ("pawn", 1), ("king", 1), ("rook", 0), ("bishop", 1), ("queen", 0), ("knight", 1), ("king", 2)]
+        pick = [pub[(3 * seed + i) % len(pub)] for i in range(3)]
+        for k, c in pick:
+            qs += cube_queries("c01_origin", [k], [c], cap, 5)
+        res.notrun.append("public-entry c01_origin cubes other than %s: thorough tier (or another VERIF_SEED)" % (pick,))
     else:
-        qs = base + gen_queries("c01_gen", KINDS[:6], [0, 1, 2], cap) + gen_queries("c16_silent", KINDS[:6], [0, 1, 2], cap)
-        qs += cube_queries("c01_origin", KINDS, [0, 1, 2], cap, 12)
+        qs += cube_queries("c01_origin", KINDS, [0, 1, 2], cap, 5)
     engine.run_plan(res, filt(qs, only), workers=12)
     return RULE
 
@@ -383,8 +389,8 @@ def step_plan(prefix, res, tier, seed, only, extra=None):
         # the hash instances are the slowest of the family (13 min per cube measured): quick runs four of the seven cubes
         cap = 1500 if tier == "quick" else 3600
         if tier == "quick":
-            kinds = ["pawn", "king", "castle", ["knight", "bishop", "rook", "queen"][seed % 4]]
-            res.notrun.append("c10 step cubes of the other three piece kinds: thorough tier or another VERIF_SEED")
+            kinds = ["pawn", "castle", ["king", "knight", "bishop", "rook", "queen"][seed % 5]]
+            res.notrun.append("c10 step cubes of the other four piece kinds: thorough tier or another VERIF_SEED")
     qs = [Query("brd::%s_step_%s_a%d" % (prefix, k, a), stubbing=True, rules=board_rules(a), default_unwind=2, timeout=cap, mem_gb=10)
           for k in kinds]
     if extra:
@@ -451,9 +457,9 @@ def plan_c06(res, tier, seed, only):
                        "FEN text route: only the field parsers are decided (C08); whole records are outside the claim"]
     oracle_validation(res)
     cap = 900 if tier == "quick" else 3000
-    mk = lambda nme, mem=8, **kw: Query("c06::" + nme, stubbing=kw.pop("stubbing", False), rules=c06_rules(a, 4), default_unwind=2, timeout=cap, mem_gb=mem, **kw)
+    mk = lambda nme, mem=8, **kw: Query("c06::" + nme, stubbing=kw.pop("stubbing", False), rules=c06_rules(a, 4), default_unwind=2, timeout=kw.pop("timeout", cap), mem_gb=mem, **kw)
     qs = [mk("c06_v_board_a%d" % a), mk("c06_v_fresh_w_a%d" % a), mk("c06_v_fresh_b_a%d" % a), mk("c06_v_ckpin_a%d" % a), mk("c06_v_castle"), mk("c06_v_ep"), mk("c06_v_clocks"),
-          mk("c06_startpos"), mk("c09_build_seq_r%s" % ["1458", "2367"][seed % 2], mem=8, stubbing=True), mk("c06_accessors_setters"),
+          mk("c06_startpos"), mk("c09_build_seq_r%s" % ["1458", "2367"][seed % 2], mem=8, stubbing=True, timeout=max(cap, 1500)), mk("c06_accessors_setters"),
           mk("c06_set_half_panics", should_panic=True), mk("c06_set_full_panics", should_panic=True)]
     if tier == "thorough":
         qs += [mk("c06_v_board_a16"), mk("c06_v_fresh_w_a16"), mk("c06_v_fresh_b_a16"), mk("c06_v_ckpin_a16"),
@@ -475,7 +481,7 @@ def plan_c09(res, tier, seed, only):
     oracle_validation(res)
     cap = 900 if tier == "quick" else 3000
     rk = ["1458", "2367"]
-    qs = [Query("c06::c09_build_seq_r%s" % rk[seed % 2], stubbing=True, rules=c06_rules(a, n), default_unwind=2, timeout=cap, mem_gb=8),
+    qs = [Query("c06::c09_build_seq_r%s" % rk[seed % 2], stubbing=True, rules=c06_rules(a, n), default_unwind=2, timeout=max(cap, 1500), mem_gb=8),
           Query("c06::c09_from_board_n%d" % n, stubbing=True, rules=c06_rules(a, n), default_unwind=2, timeout=cap, mem_gb=10),
           H("c08", "c08_castle_shredder", timeout=cap, mem_gb=8), H("c08", "c08_ep", timeout=cap, mem_gb=8), H("c08", "c08_side", timeout=cap, mem_gb=8)]
     if tier == "thorough":
@@ -516,10 +522,9 @@ def plan_c12(res, tier, seed, only):
     qs = [Query("glue::c12_status", stubbing=True, timeout=cap, mem_gb=6),
           Query("c16::c16_dispatch", stubbing=True, timeout=cap, mem_gb=8)]
     res.assumptions.append(GEN_NOTE)
-    if tier == "quick":
-        qs += gen_queries("c16_gen_abort", ["king", "pawn"], [0, 1], cap)
-    else:
-        qs += gen_queries("c16_gen_abort", KINDS[:6], [0, 1, 2], cap) + cube_queries("c16_abort", KINDS[:6], [0, 1, 2], cap, 12)
+    qs += gen_queries("c16_gen_abort", KINDS[:6], [0, 1, 2], cap)
+    if tier == "thorough":
+        qs += cube_queries("c16_abort", KINDS[:6], [0, 1, 2], cap, 5)
         qs += [Query("full::c12_sem_n%d_c%d" % (nn, c), stubbing=True, rules=board_rules(16, full_n=nn), default_unwind=2, timeout=cap, mem_gb=16)
                for nn, c in [(3, 0), (3, 1), (4, 0), (4, 1), (4, 2)]]
     engine.run_plan(res, filt(qs, only), workers=8)
@@ -557,16 +562,14 @@ def plan_c16(res, tier, seed, only):
     cap = 900 if tier == "quick" else 2700
     qs = [Query("c16::c16_dispatch", stubbing=True, timeout=cap, mem_gb=8), Query("c16::c16_full_mask", stubbing=True, timeout=cap, mem_gb=8)]
     res.assumptions.append(GEN_NOTE)
+    qs += gen_queries("c16_gen_abort", KINDS[:6], [0, 1, 2], cap) + gen_queries("c16_silent", KINDS[:6], [0, 1, 2], cap)
+    qs += gen_queries("c01_gen", KINDS[:6], [0, 1, 2], cap)
     if tier == "quick":
-        rot = ["bishop", "rook", "queen"][seed % 3]
-        qs += gen_queries("c16_gen_abort", ["king", "pawn", rot], [0, 1], cap)
-        qs += gen_queries("c16_silent", ["pawn", "king", rot], [0, 1], cap)
-        qs += gen_queries("c01_gen", ["pawn", rot], [0], cap)
-        res.notrun.append("abort/silent/gen cubes of the other kinds (knight, two of bishop/rook/queen), the public-entry cubes and the bounded symbolic-mask harness: thorough tier or another VERIF_SEED")
+        pub = KINDS[:6]
+        qs += cube_queries("c16_abort", [pub[seed % 6], pub[(seed + 3) % 6]], [0, 1], cap, 5)
+        res.notrun.append("public-entry abort cubes of the other kinds and the bounded symbolic-mask harness: thorough tier or another VERIF_SEED")
     else:
-        qs += gen_queries("c16_gen_abort", KINDS[:6], [0, 1, 2], cap) + gen_queries("c16_silent", KINDS[:6], [0, 1, 2], cap)
-        qs += gen_queries("c01_gen", KINDS[:6], [0, 1, 2], cap)
-        qs += cube_queries("c16_abort", KINDS[:6], [0, 1, 2], cap, 12)
+        qs += cube_queries("c16_abort", KINDS[:6], [0, 1, 2], cap, 5)
         qs += [Query("full::c16_masked_n%d_c%d" % (nn, c), stubbing=True, rules=board_rules(16, full_n=nn), default_unwind=2, timeout=cap, mem_gb=16)
                for nn, c in [(3, 0), (3, 1), (4, 0), (4, 1), (4, 2)]]
     engine.run_plan(res, filt(qs, only), workers=12)
